@@ -1985,6 +1985,18 @@ int EGLPNUM_TYPENAME_ILLlib_chgsense (
 			rval = 1;
 			ILL_CLEANUP;
 		}
+		if (sense[i] != 'R' && sense[i] != 'E' && sense[i] != 'G' && sense[i] != 'L')
+		{
+			QSlog("illegal sense %c in EGLPNUM_TYPENAME_ILLlib_chgsense", sense[i]);
+			rval = 1;
+			ILL_CLEANUP;
+		}
+		if (A->matcnt[qslp->rowmap[rowlist[i]]] != 1)
+		{
+			QSlog("logical variable is not a singleton");
+			rval = 1;
+			ILL_CLEANUP;
+		}
 	}
 
 	for (i = 0; i < num; i++)
